@@ -678,8 +678,10 @@ func main() {
 					if bt2, ok := mercure.VerifHubTransport(mcaddy.VerifHub(m2)).(*mercure.BoltTransport); ok {
 						_, b2, sz2, _ := mercure.VerifBoltConfig(bt2)
 						if sz2 != wantSize || b2 != "second" {
-							r.Violate(h.Violation{Key: "C19:handler-runs-with-another-handlers-transport-parameters",
-								What: fmt.Sprintf("a second handler configured with size %d and bucket \"second\" on the database file of a running handler was provisioned with size %d and bucket %q:\n%s\n--- while this one was running ---\n%s", wantSize, sz2, b2, text2, text), Replay: rp})
+							for _, key := range []string{"C19", "C10"} {
+								r.Violate(h.Violation{Key: key + ":handler-runs-with-another-handlers-transport-parameters",
+									What: fmt.Sprintf("a second handler configured with size %d and bucket \"second\" on the database file of a running handler was provisioned with size %d and bucket %q:\n%s\n--- while this one was running ---\n%s", wantSize, sz2, b2, text2, text), Replay: rp})
+							}
 						}
 					}
 					m2.Cleanup()
